@@ -120,6 +120,9 @@ func TestSim(t *testing.T) {
 			finish()
 		}
 		r.Host = w.NewHost("host", hostEnv(spec))
+		if g := spec.P("hgoos", ""); g != "" {
+			r.Host.GOOS = g // a Windows-style host: its own brokered listeners are TCP
+		}
 		prop.Run(r)
 		finish()
 	})
